@@ -297,6 +297,141 @@ def r207(ctx, fx):
         ctx.fail_closed(rid, "fewer than 2 types that spawn and join a thread found (%d; DebugServer and Machine were counted)" % pairs)
 
 
+# explicit panics (panic!, unimplemented!, unreachable!, assert!) in code a debug session can reach, one line of reason each
+PANIC_OK = {
+    "mos::debugger::DebugSession::start": (1, "`_ =>` of the match on the index of the selected operation: only the three registered operations exist"),
+    "mos::debugger::adapters::vice::find_available_port": (1, "no free TCP port on the machine at all (VICE back-end)"),
+    "mos::debugger::adapters::vice::protocol::ViceResponse::read": (3, "framing of the VICE binary monitor protocol (VICE back-end, not a client of ours)"),
+}
+JOIN_UNWRAP_OK = {
+    "mos::debugger::adapters::Machine::join": "the session thread joins its own poller: a poller that panicked ends the session, which DebugServer::join reports without "
+                                               "passing it on",
+}
+
+
+def r208(ctx, fx, cg):
+    rid = ctx.rule("R20.8", "what happens in a debug session does not decide the exit status: (a) no `unwrap` / `expect` on the result of JoinHandle::join outside the "
+                   "tabled session-internal site — DebugServer::join, which the `lsp` command calls after `exit`, must survive a debugger thread that panicked; "
+                   "(b) no explicit panic (panic!, unimplemented!, unreachable!, assert!) in code reachable from DebugSession::start except the tabled sites — a "
+                   "request with an unknown reference, a message that is not a request, a port in use or a `launch` without configuration is an error answer; (c) LspContext::config() is never force-unwrapped")
+    n = 0
+    for f in sorted(fx.all_fns("mos"), key=lambda f: f.path):
+        if "::tests::" in f.path or "::testing" in f.path or not f.blocks:
+            continue
+        for bi, t in lib.calls(f):
+            if not lib.norm(lib.callee(t)[0] or "").endswith("JoinHandle::join"):
+                continue
+            n += 1
+            dst = t["dst"]["l"] if t.get("dst") else None
+            forced = False
+            for bj, t2 in lib.calls(f):
+                p2 = lib.norm(lib.callee(t2)[0] or "")
+                if p2.endswith(("Result::<T, E>::unwrap", "Result::<T, E>::expect", "Result::unwrap", "Result::expect")) and t2.get("args") and \
+                        lib.op_local(t2["args"][0]) == dst:
+                    forced = True
+            key = "%s|join-result" % f.path
+            ctx.inst(rid, key, sample={"fn": f.path, "forced": forced, "tabled": f.path in JOIN_UNWRAP_OK})
+            if forced and f.path not in JOIN_UNWRAP_OK:
+                ctx.finding(rid, key, "%s force-unwraps the result of joining a thread: if that thread panicked at any time before (a request it could not cope with), "
+                            "the process ends with status 101 after an orderly `shutdown` and `exit`" % f.path.rsplit("::", 2)[-2:][0] + "::" + f.path.rsplit("::", 1)[-1],
+                            "%s:%s" % (f.file, t.get("line")))
+    if n < 2:
+        ctx.fail_closed(rid, "fewer than 2 JoinHandle::join sites found (%d)" % n)
+    ds = fx.fn("mos::debugger::DebugSession::start")
+    if ds is None:
+        ctx.fail_closed(rid, "DebugSession::start not found")
+        return
+    reach = cg.reach([ds.id])
+    sites = 0
+    per_owner = {}
+    for fid in sorted(reach, key=lambda i: fx.fns[i].path):
+        f = fx.fns[fid]
+        if f.crate != "mos" or "::tests::" in f.path or "::testing" in f.path:
+            continue
+        owner = f
+        while owner.kind == "closure" and owner.d.get("parent") in fx.fns:
+            owner = fx.fns[owner.d["parent"]]
+        for bi, t in lib.calls(f):
+            p = lib.norm(lib.callee(t)[0] or "")
+            if "panicking::" in p or "begin_panic" in p:
+                per_owner[owner.path] = per_owner.get(owner.path, 0) + 1
+                cnt = per_owner[owner.path]
+                sites += 1
+                ok = PANIC_OK.get(owner.path)
+                key = "%s|panic#%d" % (owner.path, cnt)
+                ctx.inst(rid, key, sample={"fn": f.path, "line": t.get("line"), "tabled": bool(ok and cnt <= ok[0])})
+                if not (ok and cnt <= ok[0]):
+                    ctx.finding(rid, key, "%s, reachable from the debug session's message loop, panics explicitly (line %s): the debugger thread dies on a request it "
+                                "could have answered with an error, and with it every later debug session of this server" % (f.path, t.get("line")),
+                                "%s:%s" % (f.file, t.get("line")))
+    # (c) the configuration may be missing (no mos.toml, or one that does not parse)
+    cfgs = 0
+    for f in sorted(fx.all_fns("mos"), key=lambda f: f.path):
+        if "::tests::" in f.path or "::testing" in f.path or not f.blocks:
+            continue
+        for bi, t in lib.calls(f):
+            if not lib.pm(lib.callee(t)[0], "LspContext::config"):
+                continue
+            cfgs += 1
+            dst = t["dst"]["l"] if t.get("dst") else None
+            key = "%s|config" % f.path
+            forced = any(lib.norm(lib.callee(t2)[0] or "").endswith(("Option::<T>::unwrap", "Option::<T>::expect", "Option::unwrap", "Option::expect")) and t2.get("args") and
+                         lib.op_local(t2["args"][0]) == dst for _, t2 in lib.calls(f))
+            ctx.inst(rid, key, sample={"fn": f.path, "forced": forced})
+            if forced:
+                ctx.finding(rid, key, "%s force-unwraps LspContext::config(): without a (valid) mos.toml the thread panics — holding the lock of the language server's "
+                            "context, which takes the language server down with it" % f.path, "%s:%s" % (f.file, t.get("line")))
+    if cfgs < 2:
+        ctx.fail_closed(rid, "fewer than 2 callers of LspContext::config found (%d)" % cfgs)
+    ctx.inst(rid, "DebugSession::start|reach", sample={"functions": len(reach), "explicit_panic_sites": sites})
+    if len(reach) < 300:
+        ctx.fail_closed(rid, "fewer than 300 functions reachable from DebugSession::start (%d)" % len(reach))
+
+
+def r209(ctx, fx):
+    rid = ctx.rule("R20.9", "nobody misses the shutdown: LspContext::invoke_shutdown_handlers records in the shutdown manager that it has run, and add_shutdown_handler "
+                   "reads that record and signals a handler that is registered afterwards at once — a debug client that connects between `shutdown` and `exit` "
+                   "would otherwise keep its session, and the process, alive")
+    inv = fx.fn("mos::lsp::LspContext::invoke_shutdown_handlers")
+    add = fx.fn("mos::lsp::LspContext::add_shutdown_handler")
+    if inv is None or add is None:
+        ctx.fail_closed(rid, "invoke_shutdown_handlers / add_shutdown_handler not found")
+        return
+    SM = "mos::lsp::ShutdownManager"
+    written = {n for of, n, kind, _, _ in lib.writes_of(inv) if of == SM and kind == "assign"}
+    read = set()
+    for b in add.blocks:
+        for st in b["stmts"] + [b["term"]]:
+            for pl in _places(st):
+                for e in (pl.get("p") or []):
+                    if isinstance(e, dict) and e.get("of") == SM and "n" in e:
+                        read.add(e["n"])
+    flag = sorted((written & read) - {"handlers"})
+    sends = [bi for bi, t in lib.calls(add) if lib.norm(lib.callee(t)[0] or "").endswith(("Sender::send", "Sender<T>::send", "Sender::try_send", "Sender<T>::try_send"))]
+    key = "ShutdownManager|late-registration"
+    ctx.inst(rid, key, sample={"record_written_by_invoke": sorted(written), "read_by_add": sorted(read), "flag": flag, "signals_at_once": bool(sends)})
+    if not flag or not sends:
+        ctx.finding(rid, key, "a shutdown handler registered after the handlers were invoked is never signalled (%s): a debug session that starts between `shutdown` and "
+                    "`exit` never learns of the shutdown and the joined debugger thread keeps the process alive" % (
+                        "no record of the invocation that add_shutdown_handler reads" if not flag else "add_shutdown_handler does not send"), add.where)
+
+
+def _places(x):
+    out = []
+
+    def go(v):
+        if isinstance(v, dict):
+            if "l" in v and isinstance(v.get("l"), int):
+                out.append(v)
+            for w in v.values():
+                go(w)
+        elif isinstance(v, list):
+            for w in v:
+                go(w)
+    go(x)
+    return out
+
+
 def run(ctx):
     fx = ctx.facts
     cg = lib.CallGraph(fx)
@@ -304,6 +439,8 @@ def run(ctx):
     r204(ctx, fx, cg)
     r205(ctx, fx)
     r207(ctx, fx)
+    r208(ctx, fx, cg)
+    r209(ctx, fx)
     r201(ctx, fx, cg)
     r202(ctx, fx, cg)
     r203(ctx, fx, cg)
